@@ -128,7 +128,7 @@ def gen_case(ctx, k, profiles=('small', 'small', 'med', 'limb')):
 
 def main(ctx):
     proofs_ok = proof_gate(ctx, gen_modules=['SimpleFunc'])
-    n = ctx.n(200, 4000)
+    n = ctx.n(1000, 20000)
     if not proofs_ok:
         n *= 3
     if ctx.replay:
